@@ -537,10 +537,10 @@ theorem SlotDom.head {P : Profile} {arch : Endian} {m : Msg} {rest : List Msg} (
   obtain ⟨hk, _, hd⟩ := h m rest rfl
   exact ⟨hk, fun pm hpm => (hd pm hpm m (List.mem_cons_self ..)).mono fun pf hv => ⟨m, List.mem_cons_self .., hv⟩⟩
 
-/-- the domain of the file-level round trip (C06): a 14-byte ".FIT" header, and every message
+/-- the domain of the file-level round trip (C06): a 12- or 14-byte ".FIT" header, and every message
     round-trips field by field under the definition it is written with -/
 structure FileRT (P : Profile) (arch : Endian) (f : FileSt) : Prop where
-  hdr14 : f.hdr.size = headerSizeCRC
+  hdrSize : f.hdr.size = headerSizeNoCRC ∨ f.hdr.size = headerSizeCRC
   tag : f.hdr.dtype = fitTag
   proto : f.hdr.proto < 256 ∧ f.hdr.proto / 16 ≤ protoMajorMax
   fidNum : f.fileId.num = mnFileId
@@ -654,7 +654,8 @@ theorem decode_encode_file (P : Profile) (hwf : ProfileWF P = true) (arch : Endi
             rw [← h1] at hsmall
             simp only [finishEncode, List.length_append] at hsmall
             omega
-          rw [← h1, finishEncode_frame f body hdom.hdr14 hdom.tag hblen]
+          rw [← h1, finishEncode_frame f body hdom.hdrSize hdom.tag hblen]
+          generalize kindOfSize f.hdr.size = k
           -- the record area as blocks with their messages
           unfold encodeBody at hbody
           simp only [List.cons_append, List.nil_append] at hbody
@@ -699,8 +700,8 @@ theorem decode_encode_file (P : Profile) (hwf : ProfileWF P = true) (arch : Endi
                 fileid_block_ok P hwf arch f.fileId b0 pm0 hpm0 hdom.fid.1 hdom.fidNum hfid
                   (fun pf hp k v hk hv hiv fs => hd0.rt pf hp (by unfold validIn; rw [getD_of_getElem? _ _ _ _ hv]; exact hiv) k v hk hv hiv fs)
                   hd0.inv
-                  (recState0 P g f.hdr.proto f.hdr.profile (b0 ++ br).length)
-                  { hdr := (afterHeader g f.hdr.proto f.hdr.profile (b0 ++ br).length).hdr, fileId := zeroFileId P }
+                  (recState0 P k g f.hdr.proto f.hdr.profile (b0 ++ br).length)
+                  { hdr := (afterHeader k g f.hdr.proto f.hdr.profile (b0 ++ br).length).hdr, fileId := zeroFileId P }
                   rfl rfl (by simp [recState0, afterHeader, DecSt.init])
               have hg2' : st2.glob = g := hg2
               -- the whole record area as items
@@ -721,16 +722,16 @@ theorem decode_encode_file (P : Profile) (hwf : ProfileWF P = true) (arch : Endi
                 rw [e, serialize_append, ← hb0, ← hbr]
               rw [hitems] at hs1 hf2 ⊢
               -- init attaches the container
-              obtain ⟨H, hH⟩ : ∃ H : Header, H = (afterHeader g f.hdr.proto f.hdr.profile (serialize
+              obtain ⟨H, hH⟩ : ∃ H : Header, H = (afterHeader k g f.hdr.proto f.hdr.profile (serialize
                     (.defn (defOf arch f.fileId.num fs) false :: .data (defOf arch f.fileId.num fs).localT parts0 [] ::
                       blocks.flatMap fun b => blockItems b.d b.partss)).length).hdr := ⟨_, rfl⟩
               obtain ⟨f3, hf3⟩ : ∃ f3 : FileSt, f3 = { hdr := H, fileId := f.fileId, cidx := some i, slots := List.replicate c.slots.length [] } := ⟨_, rfl⟩
-              have hinit3 : FileSt.init P { ({ hdr := (afterHeader g f.hdr.proto f.hdr.profile (serialize
+              have hinit3 : FileSt.init P { ({ hdr := (afterHeader k g f.hdr.proto f.hdr.profile (serialize
                     (.defn (defOf arch f.fileId.num fs) false :: .data (defOf arch f.fileId.num fs).localT parts0 [] ::
                       blocks.flatMap fun b => blockItems b.d b.partss)).length).hdr, fileId := zeroFileId P } : FileSt)
                     with fileId := f.fileId } = .ok f3 := by
                 unfold FileSt.init
-                have : fileTypeOf { ({ hdr := (afterHeader g f.hdr.proto f.hdr.profile (serialize
+                have : fileTypeOf { ({ hdr := (afterHeader k g f.hdr.proto f.hdr.profile (serialize
                     (.defn (defOf arch f.fileId.num fs) false :: .data (defOf arch f.fileId.num fs).localT parts0 [] ::
                       blocks.flatMap fun b => blockItems b.d b.partss)).length).hdr, fileId := zeroFileId P } : FileSt)
                     with fileId := f.fileId } = fileTypeOf f := rfl
@@ -738,21 +739,27 @@ theorem decode_encode_file (P : Profile) (hwf : ProfileWF P = true) (arch : Endi
               obtain ⟨st', fg', hst', hadd, hI'⟩ := stepItems_msgblocks P hwf blocks hgb { st2 with file := some f3 } f3 g
                 ⟨rfl, hg2', by rw [hf3]; rfl, hd2⟩
               rw [hms] at hadd
-              have hrun : runItems P (afterHeader g f.hdr.proto f.hdr.profile (serialize
+              have hrun : runItems P (afterHeader k g f.hdr.proto f.hdr.profile (serialize
                   (.defn (defOf arch f.fileId.num fs) false :: .data (defOf arch f.fileId.num fs).localT parts0 [] ::
                     blocks.flatMap fun b => blockItems b.d b.partss)).length).hdr g
                   (.defn (defOf arch f.fileId.num fs) false :: .data (defOf arch f.fileId.num fs).localT parts0 [] ::
-                    blocks.flatMap fun b => blockItems b.d b.partss) = .ok st' := by
+                    blocks.flatMap fun b => blockItems b.d b.partss)
+                  (afterHeader k g f.hdr.proto f.hdr.profile (serialize
+                  (.defn (defOf arch f.fileId.num fs) false :: .data (defOf arch f.fileId.num fs).localT parts0 [] ::
+                    blocks.flatMap fun b => blockItems b.d b.partss)).length).crc = .ok st' := by
                 unfold runItems
                 simp only
                 have e0 : ({ DecSt.init g with
-                    hdr := (afterHeader g f.hdr.proto f.hdr.profile (serialize
+                    hdr := (afterHeader k g f.hdr.proto f.hdr.profile (serialize
                       (.defn (defOf arch f.fileId.num fs) false :: .data (defOf arch f.fileId.num fs).localT parts0 [] ::
                         blocks.flatMap fun b => blockItems b.d b.partss)).length).hdr,
-                    file := some { hdr := (afterHeader g f.hdr.proto f.hdr.profile (serialize
+                    crc := (afterHeader k g f.hdr.proto f.hdr.profile (serialize
+                      (.defn (defOf arch f.fileId.num fs) false :: .data (defOf arch f.fileId.num fs).localT parts0 [] ::
+                        blocks.flatMap fun b => blockItems b.d b.partss)).length).crc,
+                    file := some { hdr := (afterHeader k g f.hdr.proto f.hdr.profile (serialize
                       (.defn (defOf arch f.fileId.num fs) false :: .data (defOf arch f.fileId.num fs).localT parts0 [] ::
                         blocks.flatMap fun b => blockItems b.d b.partss)).length).hdr, fileId := zeroFileId P },
-                    unkInit := true } : DecSt) = recState0 P g f.hdr.proto f.hdr.profile (serialize
+                    unkInit := true } : DecSt) = recState0 P k g f.hdr.proto f.hdr.profile (serialize
                       (.defn (defOf arch f.fileId.num fs) false :: .data (defOf arch f.fileId.num fs).localT parts0 [] ::
                         blocks.flatMap fun b => blockItems b.d b.partss)).length := rfl
                 rw [e0, hs1]
@@ -779,11 +786,11 @@ theorem decode_encode_file (P : Profile) (hwf : ProfileWF P = true) (arch : Endi
               have hg' : (defOf arch f.fileId.num fs).global = mnFileId := hdom.fidNum
               generalize hrest : (blocks.flatMap fun b => blockItems b.d b.partss) = restItems at *
               generalize hd0' : defOf arch f.fileId.num fs = d0 at *
-              have key := decode_frame_ok P o g f.hdr.proto f.hdr.profile d0 false parts0 []
+              have key := decode_frame_ok P o k g f.hdr.proto f.hdr.profile d0 false parts0 []
                 restItems tail stop st' hdom.proto.1 hdom.proto.2 hgood0.wf hg' hfidK hlen' hfitD hrun
               rw [key]
               obtain ⟨hfile', hglob', hcx', _⟩ := hI'
-              generalize (Crc.checksum (frameHdr f.hdr.proto f.hdr.profile
+              generalize (Crc.checksum (frameHdr k f.hdr.proto f.hdr.profile
                     (serialize (.defn d0 false :: .data d0.localT parts0 [] :: restItems)).length ++
                     serialize (.defn d0 false :: .data d0.localT parts0 [] :: restItems))).toNat = C
               obtain ⟨F', hF', hsame, hgl⟩ := finalize_content o (okOut { st' with crc := 0#16, file := st'.file.map fun x => { x with crc := C } }) { fg'.1 with crc := C } (by simp only [okOut, hfile', Option.map_some])
